@@ -17,7 +17,7 @@ ODD_PATHS = ["/v1/unknown", "/v1/backends/", "/", "/v1/health/", "/v1", "/V1/bac
 TOKENS = ["-", "s3cr3t", "tok en", "Bearer", "t"]
 NETS4 = ["10.0.0.0/8", "192.168.1.0/24", "192.168.1.5", "203.0.113.0/30", "10.1.2.3/8", "0.0.0.0/0", "127.0.0.1"]
 NETS6 = ["2001:db8::/32", "::1", "fe80::/10", "2001:db8:0:1::/64"]
-BADNETS = ["not-an-ip", "10.0.0.0/33", "10.0.0/8", "10.0.0.0/", "/8", "2001:db8::/129", "1.2.3.4.5"]
+BADNETS = ["not-an-ip", "10.0.0.0/33", "10.0.0/8", "10.0.0.0/", "/8", "2001:db8::/129", "1.2.3.4.5", "", " ", "\t", "", " "]
 
 
 def parsed_net(s):
